@@ -364,6 +364,35 @@ def check_case(spec):
                          f"arithmetic of the operands: {why}")
                 break
 
+    # ---- the same numbers presented in another arrangement (no cache clearing in between): other array shape, and
+    # scalar / array arguments whose concatenated contents coincide - the value belongs to the arguments as given
+    if len(x) >= 2:
+        res.label("rearranged arguments")
+        for t in ((P["t"],) if timed else (None,)):
+            kw = {} if t is None else dict(t=t)
+            zs = () if arity == "2d" else (z,)
+            variants = [("flat", (x, y) + zs), ("column", tuple(a.reshape(-1, 1) for a in (x, y) + zs))]
+            if len(x) % 2 == 0 and len(x) >= 4:
+                variants.append(("two rows", tuple(a.reshape(2, -1) for a in (x, y) + zs)))
+            zsc = () if arity == "2d" else (float(z[0]),)
+            variants.append(("scalar x, array y", (float(x[0]), np.array([y[0], y[1]])) + zsc))
+            variants.append(("array x, scalar y", (np.array([x[0], y[0]]), float(y[1])) + zsc))
+            for name, args in variants:
+                try:
+                    want = ref_eval(tree, args[0], args[1], None if arity == "2d" else args[2], t)
+                except Exception:  # noqa: BLE001
+                    continue  # the plain functions themselves do not accept this arrangement
+                try:
+                    got = comp(*args, **kw)
+                except Exception as exc:  # noqa: BLE001
+                    res.fail("C16.rearranged_call", f"evaluation with {name} arguments raised {type(exc).__name__}: {exc}")
+                    break
+                ok, why = _close(got, want)
+                if not ok:
+                    res.fail("C16.rearranged_value", f"evaluation with {name} arguments (after the same numbers in another arrangement) differs from "
+                             f"pointwise arithmetic of the operands: {why}")
+                    break
+
     # ---- structural equality
     try:
         twin = build_tree(tree)
